@@ -297,6 +297,23 @@ func (fv *FuncVC) addProbes() {
 		NAssert: len(fv.asserts), Reach: smtOr(exits...), Goal: "false", Func: fv.Name, Probe: true, Block: -1,
 		Src: "vacuity probe: preconditions, invariants and assumed callee contracts are jointly satisfiable and some exit is reachable"}
 	fv.obls = append(fv.obls, o)
+	// cover probes: the antecedent of every postcondition `A ==> B` of this property can hold at a normal return
+	if fv.C != nil {
+		for _, e := range fv.C.Ensures {
+			rs := fv.covers[e]
+			if len(rs) == 0 {
+				continue
+			}
+			mine := len(e.Props) == 0 || hasProp(e.Props, fv.activeProp)
+			if !mine {
+				continue
+			}
+			c := &Obligation{Name: fmt.Sprintf("%s#cover(post %d)", fv.Name, e.Idx), Kind: "cover", Props: []string{fv.activeProp}, Where: fv.P.relPos(fv.Fn.Pos()),
+				NAssert: len(fv.asserts), Reach: smtOr(rs...), Goal: "false", Func: fv.Name, Probe: true, Block: -1,
+				Src: "cover probe: the antecedent of `" + e.Src + "` is satisfiable at a normal return (a postcondition whose antecedent can never hold says nothing)"}
+			fv.obls = append(fv.obls, c)
+		}
+	}
 }
 
 func report(r *checkResult, pc *PropConfig, cfg RunConfig, verif string, seed int, debug bool) int {
